@@ -255,6 +255,7 @@ fn replay_history(idx: u64, b: &Value, out: &mut Out) {
         let mut autos: HashMap<u64, &'static Pma<u64>> = HashMap::new();
         let mut kinds: HashMap<u64, String> = HashMap::new();
         struct Live {
+            h: u64,
             it: StepIter<'static, u64>,
             off: Vec<usize>,
             method: String,
@@ -298,6 +299,32 @@ fn replay_history(idx: u64, b: &Value, out: &mut Out) {
                     autos.insert(op["h2"].as_u64().unwrap(), Box::leak(Box::new(p2)));
                     kinds.insert(op["h2"].as_u64().unwrap(), k0);
                 }
+                "clone" => {
+                    let src = autos[&op["h"].as_u64().unwrap()];
+                    let c = src.clone_pma();
+                    if !src.same(&c) || c.serialize() != src.serialize() {
+                        out.mismatches.push(json!({"idx": idx, "tags": ["C14"], "what": "a clone differs from its source",
+                            "map": lm.name, "step": k, "behaviour": b}));
+                    }
+                    let k0 = kinds[&op["h"].as_u64().unwrap()].clone();
+                    autos.insert(op["h2"].as_u64().unwrap(), Box::leak(Box::new(c)));
+                    kinds.insert(op["h2"].as_u64().unwrap(), k0);
+                }
+                "clone_from" => {
+                    // the specification enables this step only when no live iterator borrows the target
+                    let (d, s0) = (op["d"].as_u64().unwrap(), op["s"].as_u64().unwrap());
+                    assert!(iters.values().all(|l| l.h != d), "replayer: clone_from on a borrowed automaton");
+                    let src = autos[&s0];
+                    // the target is rebuilt in place from an owned copy of the leaked automaton
+                    let mut victim = autos[&d].clone_pma();
+                    victim.clone_from_pma(src);
+                    if !src.same(&victim) || victim.serialize() != src.serialize() {
+                        out.mismatches.push(json!({"idx": idx, "tags": ["C14"], "what": "clone_from: target differs from its source",
+                            "map": lm.name, "step": k, "behaviour": b}));
+                    }
+                    autos.insert(d, Box::leak(Box::new(victim)));
+                    kinds.insert(d, kinds[&s0].clone());
+                }
                 "iter" => {
                     let h = op["h"].as_u64().unwrap();
                     let chay: Vec<u32> = seq_of(&op["hay"]).iter().map(|&l| lm.map[l as usize]).collect();
@@ -311,7 +338,7 @@ fn replay_history(idx: u64, b: &Value, out: &mut Out) {
                     let method = op["method"].as_str().unwrap().to_string();
                     let entry = op["entry"].as_str().unwrap().to_string();
                     let it = autos[&h].iter(&method, &entry, hay);
-                    iters.insert(op["it"].as_u64().unwrap(), Live { it, off, method, kind: kinds[&h].clone(), entry });
+                    iters.insert(op["it"].as_u64().unwrap(), Live { h, it, off, method, kind: kinds[&h].clone(), entry });
                 }
                 "arrive" => {
                     // more bytes of a streaming source have arrived (offset in label units)
@@ -341,6 +368,29 @@ fn replay_history(idx: u64, b: &Value, out: &mut Out) {
                                 "map": lm.name, "step": k, "expected": exp_pulled, "got": pulled, "behaviour": b}));
                             return;
                         }
+                    }
+                }
+                "drain" => {
+                    // the iterator is consumed by an internal-iteration method of the Iterator trait
+                    let l = iters.remove(&op["it"].as_u64().unwrap()).unwrap();
+                    let mode = op["mode"].as_str().unwrap();
+                    let exp: Vec<(i64, i64, String)> = op["res"].as_array().unwrap().iter().map(|m| {
+                        let m = m.as_array().unwrap();
+                        (l.off[m[0].as_u64().unwrap() as usize] as i64, l.off[m[1].as_u64().unwrap() as usize] as i64,
+                         (m[2].as_u64().unwrap() - 1).to_string())
+                    }).collect();
+                    let (ms, n, last) = l.it.drain(mode);
+                    let got: Vec<(i64, i64, String)> = ms.iter().map(|m| (m.s, m.e, m.v.clone())).collect();
+                    let ok = match mode {
+                        "fold" | "for_each" => got == exp,
+                        "count" => n == exp.len() as i64,
+                        _ => last.map(|m| (m.s, m.e, m.v)) == exp.last().cloned(),
+                    };
+                    if !ok {
+                        out.mismatches.push(json!({"idx": idx, "tags": [method_prop(&l.method, &l.kind), "C12", "C14"],
+                            "what": "internal iteration (fold / for_each / count / last) in an interleaved history",
+                            "map": lm.name, "step": k, "mode": mode, "expected": exp, "got": got, "n": n, "behaviour": b}));
+                        return;
                     }
                 }
                 _ => {}
